@@ -705,16 +705,19 @@ def run(ctx):
         "traces_validated_against_impl": st["expr_lines"] + st["str_lines"] if model_ok else 0,
         "operator_histogram": r.hist, "stats": st,
         "partial_theorems": {"roundtrip_expr_partial": "RT e (decidable: every operand the printer leaves bare stands at a parser level that reads it back)",
-                             "roundtrip_expr_noShortcut": "NoShortcut e (no node `x op (y op z)` with op in + * && || printed without parentheses)",
+                             "roundtrip_expr_noShortcut": "NoShortcut e (no node `x op (y op z)` with op in + * && || printed without parentheses; the only remaining deviation, open finding C08-F5 pinned by a golden test)",
                              "roundtrip_int": "0 <= i < 2^31 or i = -2^31 (all values the parser produces)"},
-        "pending": ["fuel-free form of roundtrip_expr_partial (parseE instead of `for every sufficiently large budget`; the driver cross-checks the budget on every line)",
-                    "paren_insensitive", "width_irrelevant (C09 layout theorem)", "call/field chains, if/match/lambda/tuple/block atoms in the model (covered by the reparse oracle only)"]})
+        "full_strength_theorems": ["roundtrip_str (every lexed string literal)", "paren_insensitive", "parseFuel_stable", "former_witnesses_roundtrip", "member_name_before_lt"],
+        "pending": ["a total statement for shortcut nodes: parseE (printE e) = some (regroup e) and evaluation-equivalence of regroup (C08-F5 is semantically harmless)",
+                    "width_irrelevant (C09 layout theorem)",
+                    "inside of call arguments / tuples / blocks / if-else / match / lambda parameter lists (opaque units in the model; covered by the reparse oracle)",
+                    "declarations, patterns, types, statements, comments (reparse oracle only)"]})
     ctx.assumptions += ["valid UTF-8 input", "int literal tokens in i32 range (out-of-range literals are C06)",
                         "token-level statement: the layout engine only inserts blanks/line breaks between tokens (C09); checked empirically here at widths 5..200"]
     return ctx.finish(res, trusted=common.TRUSTED_COMMON + [
-        "hand-written model Model/Fmt.lean (printer arms Unary/Binary/literals; parser levels parse_disjunction..parse_unary_expression, nested-expression unwrapping; lex_str_lit_opt, unescape_quotes, process_raw_token)",
-        "driver-side character lexer of the fragment (Driver/C08.lean lexWords) and the tree dump of harness/src/bin/c08.rs (erases locations, comments, resolved module references, field/tag orders; imports normalised by merge+sort)",
-        "not modelled (reparse oracle only): declarations, patterns, types, statements, dotted chains, if/match/lambda/tuple/block, comments"])
+        "hand-written model Model/Fmt.lean (printer arms literal/id/tuple/block, FieldAccess/MethodAccess/Call chains, Unary, Binary incl. ends_with_member_name, IfElse/Match as opaque units, Lambda; parser parse_expression, parse_disjunction..parse_factor, parse_unary_expression, parse_function_call_or_field_access incl. the `<`-after-member-name rule, parse_base_expression with nested-expression unwrapping and lambdas; lex_str_lit_opt, unescape_quotes, process_raw_token)",
+        "driver-side character lexer and token grouping of the fragment (Driver/C08.lean lexWords/group: call arguments, member names, if/match/lambda-parameter/block units in fixed shapes) and the tree dump of harness/src/bin/c08.rs (erases locations, comments, resolved module references, field/tag orders; imports normalised by merge+sort)",
+        "not modelled (reparse oracle only): declarations, patterns, types, statements, the inside of the opaque units, explicit type arguments, comments"])
 
 
 def replay(ctx, path):
